@@ -19,6 +19,7 @@ structure SndG where
   blockedAt : List Int := []
   discarded : Bool := false     -- the stream was discarded by a 0-RTT rejection: the server never saw it
   cancelled : Bool := false     -- CancelWrite was called or STOP_SENDING arrived: a RESET_STREAM is to be expected
+  lateCancel : Bool := false    -- CancelWrite / STOP_SENDING came AFTER the 0-RTT rejection that discarded the stream (stale handle)
 
 structure RcvG where
   adv : Int := 0                -- what the peer was told: advertised limit for this kind of stream, then every non-zero MAX_STREAM_DATA sent
@@ -31,6 +32,7 @@ structure RcvG where
   reliable : Int := 0           -- reliable size of the RESET_STREAM_AT frames accepted (only ever reduced)
   updDue : Bool := false        -- the application has consumed everything the peer was told it may send: MAX_STREAM_DATA is due
   discarded : Bool := false     -- the stream was discarded by a 0-RTT rejection
+  lateCancel : Bool := false    -- CancelRead came AFTER the 0-RTT rejection that discarded the stream (stale handle)
 
 structure G where
   started : Bool := false
@@ -83,8 +85,10 @@ def recvExpect (g : G) (r : RcvG) (endOff : Int) (fin : Bool) (isReset : Bool) :
 
 /-- monitor `discarded_stream_silent`: a stream-related control frame of a stream that a 0-RTT rejection discarded is
 on the wire after the rejection (listed finding while `framer.Handle0RTTRejection` keeps `streamsWithControlFrames`) -/
-def staleFail (what : String) : Fail :=
-  ("discarded_stream_silent", "stale_reset_after_0rtt_rejection",
+def staleFail (what : String) (late : Bool := false) : Fail :=
+  -- `late`: the frame was caused by a call on the discarded stream's stale handle AFTER the rejection (listed finding
+  -- C04-stale-handle-after-0rtt-rejection); a frame queued BEFORE the rejection is the defect repaired by 1dab85a.
+  ("discarded_stream_silent", if late then "stale_handle_after_0rtt_rejection" else "stale_reset_after_0rtt_rejection",
    what ++ " sent after the 0-RTT rejection that discarded the stream: the server never saw it")
 
 def packToken (g : G) (tok : String) : G × List Fail × List String :=
@@ -143,21 +147,25 @@ def packToken (g : G) (tok : String) : G × List Fail × List String :=
       -- sent afterwards; its final size is charged by the server against the NEW limits, while this endpoint has
       -- forgotten the bytes (connection-level bytesSent was reset).
       -- (stream ids are used again after a rejection: the stale frame may carry the id of a NEW stream that was never reset)
-      let cls := if s.discarded || (g.rejected && !s.cancelled) then "stale_reset_after_0rtt_rejection"
+      -- late: caused by CancelWrite / STOP_SENDING on a stale handle after the rejection — of this stream, or (stream ids
+      -- start over) of a discarded stream whose id the frame carries while the oracle attributes it to the new stream
+      let late := (s.discarded && s.lateCancel) || (!s.discarded && g.snd.any (fun t => t.discarded && t.lateCancel))
+      let cls := if late then "stale_handle_after_0rtt_rejection"
+        else if s.discarded || (g.rejected && !s.cancelled) then "stale_reset_after_0rtt_rejection"
         else if rel > 0 && fin = rel && s.newEnd ≤ s.credit then "reset_final_size_beyond_credit" else "-"
       let f := if fin > s.credit then
         [("sender_within_credit", cls, s!"stream {i}: RESET_STREAM final size {fin} (reliable size {rel}) but the largest MAX_STREAM_DATA seen is {s.credit} ({s.newEnd} bytes sent)")] else []
       -- after a 0-RTT rejection no control frame of a discarded stream is sent: the server never saw the stream (and the
       -- id may by now belong to a NEW stream that was never reset)
       let fd := if s.discarded || (g.rejected && !s.cancelled) then
-        [staleFail (s!"RESET_STREAM (final size {fin}) for send stream {i}" ++ (if s.discarded then "" else ", a new stream that was never reset, under the id of a discarded one"))] else []
+        [staleFail (s!"RESET_STREAM (final size {fin}) for send stream {i}" ++ (if s.discarded then "" else ", a new stream that was never reset, under the id of a discarded one")) late] else []
       (g, f ++ fd, [if rel = 0 then "pack:reset-stream" else "pack:reset-stream-at",
                if fin > s.credit then "pack:reset-final-size-beyond-credit" else "pack:reset-final-size-within-credit"] ++
                (if s.discarded then ["pack:reset-of-discarded-stream"] else []))
   | ["X", "stop_sending", j] =>
     match g.rcv[natOf j]? with
     | none => (g, [], [])
-    | some r => if r.discarded then (g, [staleFail s!"STOP_SENDING for receive stream {j}"], ["pack:stop-sending-of-discarded-stream"]) else (g, [], ["pack:stop-sending"])
+    | some r => if r.discarded then (g, [staleFail s!"STOP_SENDING for receive stream {j}" r.lateCancel], ["pack:stop-sending-of-discarded-stream"]) else (g, [], ["pack:stop-sending"])
   | ["MD", v] =>
     -- (an older MAX_DATA may still be queued behind a newer one: the largest value sent is what binds)
     let v := intOf v
@@ -275,10 +283,10 @@ def stepCore (g : G) (op impl : String) : G × StepOut :=
   | ["rb", _] => echo g ["reliable-boundary"] []
   | ["cw", i] =>
     let i := natOf i
-    echo { g with snd := match g.snd[i]? with | some s => g.snd.set i { s with cancelled := true } | none => g.snd } ["cancel-write"] []
+    echo { g with snd := match g.snd[i]? with | some s => g.snd.set i { s with cancelled := true, lateCancel := s.lateCancel || s.discarded } | none => g.snd } ["cancel-write"] []
   | ["stop", i] =>
     let i := natOf i
-    echo { g with snd := match g.snd[i]? with | some s => g.snd.set i { s with cancelled := true } | none => g.snd } ["stop-sending"] []
+    echo { g with snd := match g.snd[i]? with | some s => g.snd.set i { s with cancelled := true, lateCancel := s.lateCancel || s.discarded } | none => g.snd } ["stop-sending"] []
   | ["smax", i, v] =>
     let i := natOf i; let v := intOf v
     match g.snd[i]? with
@@ -350,7 +358,7 @@ def stepCore (g : G) (op impl : String) : G × StepOut :=
     let j := natOf j
     match g.rcv[j]? with
     | none => echo g [] []
-    | some r => echo { g with rcv := g.rcv.set j { r with cancelled := true, updDue := false } } ["cancel"] []
+    | some r => echo { g with rcv := g.rcv.set j { r with cancelled := true, updDue := false, lateCancel := r.lateCancel || r.discarded } } ["cancel"] []
   | ["cupd", _] =>
     let v := intOf (res.headD "0")
     let tot0 := sumI (g.rcv.map (·.credited))
